@@ -2,6 +2,7 @@ From Coq Require Import ZArith NArith List.
 From PSO Require Import Raft.Types Raft.Node Raft.Net Raft.Obs.
 From PSO Require Import Raft.ProofsElectionBase Raft.ProofsElectionStep Raft.ProofsElectionGhost.
 From PSO Require Import Raft.ProofsElectionMain Raft.ProofsElectionC07.
+From PSO Require Import Raft.ProofsElectionDump.
 Import ListNotations.
 Open Scope N_scope.
 
@@ -71,3 +72,61 @@ Theorem C03_example_valid_run :
                In (1, 3, 1) (grants gh) /\ In (2, 2, 2) (grants gh).
 Proof. exact ex_valid_ok. Qed.
 Print Assumptions C03_example_valid_run.
+
+(* ---- with a dump file configured ----
+   dump_ok c ginit evs: on every ETick of the run, a node that is about to load its dump file
+   (need_load and file_dump c) has nothing stored; with file_dump c = false it is always true
+   (C03_dump_condition_void_without_dump_file), so the three theorems below contain the ones above *)
+Theorem C03_election_safety_dump :
+  forall (c : conf) (V : list nid) (evs : list event) (g : gstate),
+    dyn c = false -> dump_ok c ginit evs = true -> valid V evs = true ->
+    run_trace c ginit evs = Some g ->
+    exists gh, grun c ginit gh0 evs = Some (g, gh) /\
+      forall t a b, In (t, a) (wins gh) -> In (t, b) (wins gh) -> a = b.
+Proof. exact election_safety_run_dump. Qed.
+Print Assumptions C03_election_safety_dump.
+
+Theorem C03_election_safety_ghost_dump :
+  forall (c : conf) (V : list nid) (evs : list event) (g : gstate) (gh : ghost),
+    dyn c = false -> dump_ok c ginit evs = true -> valid V evs = true ->
+    grun c ginit gh0 evs = Some (g, gh) ->
+    forall t a b, In (t, a) (wins gh) -> In (t, b) (wins gh) -> a = b.
+Proof. exact election_safety_dump. Qed.
+Print Assumptions C03_election_safety_ghost_dump.
+
+Theorem C03_win_has_quorum_dump :
+  forall (c : conf) (V : list nid) (evs : list event) (g : gstate) (gh : ghost),
+    dyn c = false -> dump_ok c ginit evs = true -> valid V evs = true ->
+    grun c ginit gh0 evs = Some (g, gh) ->
+    forall t a, In (t, a) (wins gh) ->
+      NoDup (voters gh t a) /\ incl (voters gh t a) V /\ (length V < 2 * length (voters gh t a))%nat.
+Proof. exact win_has_quorum_dump. Qed.
+Print Assumptions C03_win_has_quorum_dump.
+
+Theorem C03_dump_condition_void_without_dump_file :
+  forall (c : conf) (evs : list event), file_dump c = false -> forall g : gstate, dump_ok c g evs = true.
+Proof. exact dump_ok_static. Qed.
+Print Assumptions C03_dump_condition_void_without_dump_file.
+
+(* the Tier C4 fragment of the refinement (run_ok4) implies the condition *)
+Theorem C03_dump_condition_from_tier_c4 :
+  forall (c : conf) (evs : list event) (g : gstate),
+    Refine4Main.run_ok4 c g evs = true -> dump_ok c g evs = true.
+Proof. exact run_ok4_dump_ok. Qed.
+Print Assumptions C03_dump_condition_from_tier_c4.
+
+(* a run with file_dump = true that meets the hypotheses (run D of the Tier C4 examples) ... *)
+Theorem C03_example_dump_run :
+  file_dump Refine4Example.t4_confD = true /\ dyn Refine4Example.t4_confD = false /\
+  valid Refine4Example.t4_V Refine4Example.t4_traceD = true /\
+  dump_ok Refine4Example.t4_confD ginit Refine4Example.t4_traceD = true /\
+  exists g gh, grun Refine4Example.t4_confD ginit gh0 Refine4Example.t4_traceD = Some (g, gh) /\
+               wins gh = [(1, 1)] /\ In (1, 3, 1) (grants gh).
+Proof. exact dump_run_example. Qed.
+Print Assumptions C03_example_dump_run.
+
+(* ... and one that does not: voter 2 ticks for the first time after it has installed a snapshot *)
+Theorem C03_example_dump_condition_violated :
+  dump_ok Refine4Example.t4_confD ginit Refine4Example.t4_traceA = false.
+Proof. exact dump_run_violation. Qed.
+Print Assumptions C03_example_dump_condition_violated.
